@@ -323,6 +323,9 @@ func (c *Ctx) runBlock(fr *frame) {
 	if c.Steps > c.budget.Steps {
 		panic(pathEnd{Reason: "budget", Detail: fmt.Sprintf("%d steps in %s", c.Steps, fr.fn)})
 	}
+	if c.WallExceeded() {
+		panic(pathEnd{Reason: "budget", Detail: fmt.Sprintf("wall-clock limit of the path exceeded in %s", fr.fn)})
+	}
 	// phis are evaluated simultaneously
 	if _, ok := b.Instrs[0].(*ssa.Phi); ok {
 		pi := 0
